@@ -59,6 +59,8 @@ static long read_hunk_header(FILE *in)
 
   for (n = 0; n < table_length; n++)
   {
+    if (feof(in)) { break; }
+
     //uint32_t size = read_int32(in);
     read_int32(in);
 
